@@ -21,17 +21,15 @@ fn v(prop: &str, sig: &str, text: String, seed: u64) -> Viol {
     Viol { prop: prop.into(), sig: format!("{}:{}", prop, sig), text: format!("full-queue scenario: {}", text), replay: json!({"kind": "maxbatch", "seed": seed.to_string()}) }
 }
 
-/// Put a thread (0 = the calling one) on one CPU; for the worker also lower its priority. Used to tilt the race
-/// "does the blocked sender's request arrive while the worker is still collecting its batch" towards yes: with
-/// both on one CPU the sender, woken by the worker's first recv(), usually preempts the low-priority worker.
-fn pin(tid: i32, cpu: usize, low_priority: bool) {
+/// Put a thread (0 = the calling one) on one CPU. Used to tilt the race "does the blocked sender's request arrive
+/// while the worker is still collecting its batch" towards yes: with both on one CPU the sender, woken by the
+/// worker's first recv(), often runs before the worker has drained the queue. (Priorities are left alone: a
+/// low-priority worker starves on a loaded machine.)
+fn pin(tid: i32, cpu: usize, _low_priority: bool) {
     unsafe {
         let mut set: libc::cpu_set_t = std::mem::zeroed();
         libc::CPU_SET(cpu, &mut set);
         libc::sched_setaffinity(tid, std::mem::size_of::<libc::cpu_set_t>(), &set);
-        if low_priority {
-            libc::setpriority(libc::PRIO_PROCESS, tid as libc::id_t, 19);
-        }
     }
 }
 
